@@ -341,6 +341,65 @@ def raises(body: Sequence[ast.stmt], noreturn: Set[str] = frozenset()) -> bool:
     return False
 
 
+def tail_default(body: Sequence[ast.stmt]) -> Sequence[ast.stmt]:
+    """The block reached when every test of the trailing if/elif chain of `body` is false
+    (canonical form: guard clauses are if/else chains)."""
+    while body and isinstance(body[-1], ast.If) and body[-1].orelse:
+        body = body[-1].orelse
+    return body
+
+
+def dispatch_defaults(fn: ast.AST, subject: str) -> List[Sequence[ast.stmt]]:
+    """For every if/elif chain in fn that dispatches on `isinstance(<subject>, ..)`: the block reached
+    when no test of the chain matches (the final else; empty when the chain has none)."""
+    heads = []
+    chained = set()
+    ifs = [n for n in walk_no_nested(fn) if isinstance(n, ast.If)]
+
+    def on_subject(n: ast.If) -> bool:
+        for c in ast.walk(n.test):
+            if isinstance(c, ast.Call):
+                r = isinstance_classes(c)
+                if r is not None and ast.unparse(r[0]) == subject:
+                    return True
+        return False
+
+    for n in ifs:
+        if on_subject(n) and len(n.orelse) == 1 and isinstance(n.orelse[0], ast.If) and on_subject(n.orelse[0]):
+            chained.add(id(n.orelse[0]))
+    out = []
+    for n in ifs:
+        if on_subject(n) and id(n) not in chained:
+            cur = n
+            while len(cur.orelse) == 1 and isinstance(cur.orelse[0], ast.If) and on_subject(cur.orelse[0]):
+                cur = cur.orelse[0]
+            out.append(cur.orelse)
+    return out
+
+
+def dispatch_arms(fn: ast.AST, subject: str) -> List[Tuple[ast.If, List[ast.AST], Sequence[ast.stmt]]]:
+    """The arms of the if/elif chains in fn that test `isinstance(<subject>, ..)` directly, in program order:
+    (if node, class expressions, body).  Canonical form: a sequence of guard clauses is such a chain."""
+    out = []
+    for n in walk_no_nested(fn):
+        if isinstance(n, ast.If) and isinstance(n.test, ast.Call):
+            r = isinstance_classes(n.test)
+            if r is not None and ast.unparse(r[0]) == subject:
+                out.append((n, list(r[1]), n.body))
+    return out
+
+
+def dispatch_default_raises(fn: ast.AST, subject: str, noreturn: Set[str] = frozenset()) -> bool:
+    """The longest isinstance-dispatch on `subject` in fn ends in an else that raises."""
+    ds = dispatch_defaults(fn, subject)
+    return bool(ds) and any(raises(d, noreturn) for d in ds)
+
+
+def default_raises(body: Sequence[ast.stmt], noreturn: Set[str] = frozenset()) -> bool:
+    """The case not covered by any test of the trailing if/elif chain ends by raising."""
+    return raises(tail_default(body), noreturn)
+
+
 def str_const(e: ast.AST) -> Optional[str]:
     return e.value if isinstance(e, ast.Constant) and isinstance(e.value, str) else None
 
